@@ -313,6 +313,11 @@ class Sim(object):
         def calc_asm(rx, asm, i, z, dz, dump_step):
             if sim._in_flush:
                 return orig_calc_asm(rx, asm, i, z, dz, dump_step)
+            if sim.plan.perm_default == 'identity' and not sim.plan.perms:
+                # identity plan: no deferral at all, the shipped order of
+                # operations inside axial_step is executed exactly
+                sim.hist.add('asm_sched', tick=sim.tick, who=i)
+                return orig_calc_asm(rx, asm, i, z, dz, dump_step)
             sim._pending.append((asm, i, z, dz, dump_step))
             n = len(rx.assemblies)
             if len(sim._pending) == n:
@@ -331,6 +336,33 @@ class Sim(object):
                     sim._in_flush = False
             return asm
 
+        def flush_regions(step):
+            # region activations registered so far, in planned order.  Called
+            # at the end of the tick (where the shipped axial_step performs
+            # them) and before a gap update, so that a tree which activates
+            # regions *before* the gap update keeps that order under the seam
+            pr = sim._pending_regions
+            sim._pending_regions = []
+            if not pr:
+                return
+            order = sim.plan.order(step, len(pr), 'region')
+            if order != list(range(len(pr))):
+                sim.fire('sched.region_order')
+            was = sim._in_flush
+            sim._in_flush = True
+            try:
+                for k in order:
+                    a, zz, tg, hg, ad = pr[k]
+                    for m in sim.monitors:
+                        m.on_region_before(sim, a, zz, tg, hg, ad)
+                    orig_update_region(a, zz, tg, hg, ad)
+                    sim.hist.add('region_change', tick=step, who=a.id,
+                                 to=a.active_region_idx)
+                    for m in sim.monitors:
+                        m.on_region_after(sim, a, zz, tg, hg, ad)
+            finally:
+                sim._in_flush = was
+
         def axial_step(rx, z, dz, step, verbose=False):
             sim.tick = step
             sim.reactor = rx
@@ -348,26 +380,7 @@ class Sim(object):
             sim._pending_regions = []
             orig_axial_step(rx, z, dz, step, verbose)
             assert not sim._pending, 'assembly scheduler left work behind'
-            # flush region activations in planned order
-            pr = sim._pending_regions
-            sim._pending_regions = []
-            if pr:
-                order = sim.plan.order(step, len(pr), 'region')
-                if order != list(range(len(pr))):
-                    sim.fire('sched.region_order')
-                sim._in_flush = True
-                try:
-                    for k in order:
-                        a, zz, tg, hg, ad = pr[k]
-                        for m in sim.monitors:
-                            m.on_region_before(sim, a, zz, tg, hg, ad)
-                        orig_update_region(a, zz, tg, hg, ad)
-                        sim.hist.add('region_change', tick=step, who=a.id,
-                                     to=a.active_region_idx)
-                        for m in sim.monitors:
-                            m.on_region_after(sim, a, zz, tg, hg, ad)
-                finally:
-                    sim._in_flush = False
+            flush_regions(step)
             if sim.record_state:
                 sim.state_log.append(
                     [asm_state_digest(a) for a in rx.assemblies]
@@ -390,11 +403,23 @@ class Sim(object):
         def update_region(asm, z, t_gap, h_gap, adiabatic=False):
             if sim._in_flush or sim.reactor is None:
                 return orig_update_region(asm, z, t_gap, h_gap, adiabatic)
+            if sim.plan.region_default == 'identity':
+                for m in sim.monitors:
+                    m.on_region_before(sim, asm, z, t_gap, h_gap, adiabatic)
+                orig_update_region(asm, z, t_gap, h_gap, adiabatic)
+                sim.hist.add('region_change', tick=sim.tick, who=asm.id,
+                             to=asm.active_region_idx)
+                for m in sim.monitors:
+                    m.on_region_after(sim, asm, z, t_gap, h_gap, adiabatic)
+                return
             sim._pending_regions.append(
                 (asm, z, np.array(t_gap, copy=True),
                  np.array(h_gap, copy=True), adiabatic))
 
         def gap(core, dz, t_duct):
+            if sim._pending_regions:
+                sim.probe('sched.region_before_gap')
+                flush_regions(sim.tick)
             for m in sim.monitors:
                 m.on_gap_before(sim, core, dz, t_duct)
             orig_gap(core, dz, t_duct)
